@@ -19,7 +19,7 @@ func newSkipList() List {
 func (l *list) Insert(id interface{}, deadline time.Time) {
 	l.mtx.Lock()
 	defer l.mtx.Unlock()
-	l.insert(id, deadline.Round(time.Second))
+	l.insert(id, deadline)
 }
 
 func (l *list) Reset() {
